@@ -221,6 +221,7 @@ func tables(repo string, out *Out) {
 	}
 	tablesMore(repo, out, put, fail)
 	tablesLoad(repo, out, put, fail)
+	tablesDisplay(repo, put, fail)
 	tablesVars(repo, put, fail)
 }
 
